@@ -1,6 +1,8 @@
 use std::{hash::BuildHasher, sync::Arc};
 
 use parking_lot::Mutex;
+#[cfg(all(transparencies_stretto_verif, kani))]
+use crate::verif_kvec::Vec;
 
 #[cfg(feature = "async")]
 use crate::policy::AsyncLFUPolicy;
